@@ -436,7 +436,7 @@ def recvStep (r : RecvD) (i : Receive.Input) (a : RArg) : RRes :=
 
 /-- `Receive.got_message(side, phase, body)` -/
 def recvGotMessage (C : Crypto) (r : RecvD) (side phase : String) (body : Bytes) : RRes :=
-  if !r.key then (r, [], some .assertion) else
+  if !r.key then recvStep r .got_message_bad .bad else    -- `if self._key is None: self.got_message_bad(); return`
   match C.dec side phase body with
   | none => recvStep r .got_message_bad .bad
   | some pt => recvStep r .got_message_good (.good phase pt)
